@@ -353,6 +353,7 @@ prop("C18",
 
 prop("C24",
      units=["xmlescape"],
+     scans=["export-panicking-ops"],
      level="proof",
      claim="slice (export side, text escaping): needs_xlsx_escape(c) holds for exactly the characters that are NOT an XML 1.0 `Char` (production [2] of the recommendation, written "
            "out as the spec xml10_char — not the code's table); escape_char sends the five markup characters and CR / LF to entities; and the whole slow-path loop of escape_xml, "
